@@ -82,6 +82,9 @@ def gen(ctx):
 
     thorough = ctx.tier == "thorough"
     # ---- regression corpus (always first): the field MPD names updating_db (fix 018518f)
+    s = {"repeat": False, "random": False, "single": "0", "consume": False, "playlist": 1, "playlistlength": 0, "state": "stop",
+         "updating_db": 7}      # = the witness recorded in known_findings.json
+    add("corpus", "Status", None, t.enc_status(s), t.expect_status(s))
     s = gen_status(rng, [["updating_db"]])
     s["updating_db"] = 7
     add("corpus", "Status", None, t.enc_status(s), t.expect_status(s))
